@@ -242,9 +242,9 @@ def forward_locals(body, start_local, through_calls=None):
 # Result / error discipline (DESIGN 3.5)
 
 LOG_CALL = re.compile(r'(log::Log(Ext)?::(log|warn|err|info|debug))|(<.* as log::Log(Ext)?>::(log|warn|err|info))|(walk::Walk::log_warn)|(log::StdLog::)|(Walk<.*>::log_warn)|std::io::_eprint|(^log::__private_api::log)')
-DISCARD_METHODS = re.compile(r'Result<.*>::(ok|is_ok|is_err|unwrap_or|unwrap_or_default|unwrap_or_else|err|is_ok_and|is_err_and)$')
-PANIC_METHODS = re.compile(r'Result<.*>::(unwrap|expect|unwrap_err|expect_err)$')
-PASS_METHODS = re.compile(r'Result<.*>::(map_err|map|and_then|or_else|inspect_err|as_ref|as_mut|with_context|context)$|<.* as std::convert::Into<.*>>::into|<.* as std::convert::From<.*>>::from')
+DISCARD_METHODS = re.compile(r'Result(?:::)?<.*>::(ok|is_ok|is_err|unwrap_or|unwrap_or_default|unwrap_or_else|err|is_ok_and|is_err_and)$')
+PANIC_METHODS = re.compile(r'Result(?:::)?<.*>::(unwrap|expect|unwrap_err|expect_err)$')
+PASS_METHODS = re.compile(r'Result(?:::)?<.*>::(map_err|map|and_then|or_else|inspect_err|as_ref|as_mut|with_context|context)$|<.* as std::convert::Into<.*>>::into|<.* as std::convert::From<.*>>::from')
 TRY_BRANCH = re.compile(r'as std::ops::Try>::branch$')
 FROM_RESIDUAL = re.compile(r'FromResidual.*>::from_residual$')
 
@@ -403,7 +403,7 @@ def switch_on_result_of(body, call):
     if fate.ok_arm_blocks or fate.err_arm_blocks:
         return {'ok': fate.ok_arm_blocks, 'err': fate.err_arm_blocks, 'via': 'match', 'fate': fate}
     # via `?`
-    for l in forward_locals(body, call.dest[0]):
+    for l in forward_locals(body, call.dest[0], through_calls=lambda c, ai: ai == 0 and c.matches(PASS_METHODS)):
         for (bb, idx, what) in body.operand_uses(l):
             if what[0] == 'callarg' and what[1].matches(TRY_BRANCH):
                 br = what[1]
